@@ -773,8 +773,7 @@ static struct reb_particle reb_particle_from_fmt_errV(struct reb_simulation* r, 
     if (!isnan(theta)) Norb++;
     if (!isnan(T)) Norb++;
     
-    int Nnonpal = 0;
-    if (primary_given) Nnonpal++;
+    int Nnonpal = 0; // Note: a primary can be combined with Pal coordinates
     if (!isnan(e)) Nnonpal++;
     if (!isnan(inc)) Nnonpal++;
     if (!isnan(Omega)) Nnonpal++;
